@@ -79,6 +79,57 @@ CHECKS["C18"] = (
     "environment reads are invisible to strace (covered differentially); byte identity with "
     "rustfmt on assumes no rustfmt.toml in the working directory.",
     "DESIGN.md §8 C18")
+CHECKS["C02"] = (
+    "exploration",
+    "runtime monitoring: layouts recorded by a shadow device while executing the generated code, "
+    "judged by real wgpu-core Interface::check_stage, transcribed create_bind_group_layout entry "
+    "rules, and replay on the real wgpu device (llvmpipe)",
+    "160 (quick) / 1500 (thorough) seeded shaders covering every sampled/depth/multisampled "
+    "texture type, the storage format x access x dimension sweep, buffers of every shape, "
+    "samplers, sparse/huge indices; the generated get_bind_group_layout/create_pipeline_layout "
+    "are executed against a recording device; every entry point is validated with wgpu-core's "
+    "own check_stage against the recorded layouts in pipeline-layout order; every recorded "
+    "entry is judged by the unconditional rules of create_bind_group_layout; everything is "
+    "replayed on the real device for calibration.",
+    "filterability as assumed by the property; device limits/features are not attributed to the "
+    "tool; the workload's use sets are cross-checked with naga's analysis each run.",
+    "DESIGN.md §8 C02")
+CHECKS["C03"] = (
+    "exploration",
+    "runtime monitoring: visibility of recorded layout entries and push-constant stages vs "
+    "stage sets known by construction from the workload generator's call graph",
+    "Same corpus as C02 with helper DAGs (chain, diamond, fan, layers, random, cross-stage "
+    "shared helpers), accesses and calls placed at 24 control-flow sites (branches, loop "
+    "bodies, continuing, break-if, for init/cond/update, switch cases, call arguments, return "
+    "expressions ...), 1-2 entry points per stage: recorded visibility must equal the "
+    "reachability-based stage set exactly, per binding; a run fails as inconclusive if a "
+    "placement site was never generated.",
+    "only access forms on which WGSL 'statically accessed' is unambiguous are generated; the "
+    "model is cross-checked against naga's global-use analysis in C02's run.",
+    "DESIGN.md §8 C03")
+CHECKS["C04"] = (
+    "exploration",
+    "runtime monitoring: call log of a recording device/passes with unique resource ids while "
+    "executing from_bindings / set / set_bind_groups / BindGroups::set / create_pipeline_layout; "
+    "exactly-once and conservation checks",
+    "For every group of every shader the probe builds the group from a struct literal naming "
+    "exactly the WGSL variables (compile error = surface mismatch), with a fresh id per field; "
+    "the create_bind_group log must carry each id at its variable's @binding exactly once with "
+    "the group's own layout; each of 3 setting routes x 3 pass kinds must bind exactly "
+    "{(N, group N)}; the pipeline layout must list descriptor-equal layouts in index order.",
+    "dynamic offsets are never generated by the tool and not exercised.",
+    "DESIGN.md §8 C04")
+CHECKS["C13"] = (
+    "exploration",
+    "runtime monitoring: PipelineLayoutDescriptor recorded by the shadow device and the value "
+    "of PUSH_CONSTANT_STAGES vs WGSL size from an independent layout calculator and stage sets "
+    "known by construction",
+    "Shaders with and without a push constant (scalars, vectors incl. vec3, matrices, arrays, "
+    "padded structs) used by none/one/several stages directly or through helpers: exactly one "
+    "range 0..WGSL size (multiple of 4) with stages = PUSH_CONSTANT_STAGES = using stages "
+    "(fallback: entry stages); none and no constant otherwise.",
+    "push constant types are kept <= 128 bytes.",
+    "DESIGN.md §8 C13")
 
 NOT_YET = {
 }
